@@ -117,6 +117,16 @@ def Flags.or (a b : Flags) : Flags :=
   { cancel := a.cancel || b.cancel, ignore := a.ignore || b.ignore, panic := a.panic || b.panic,
     dontWait := a.dontWait || b.dontWait }
 
+/-- The flag record as the bit mask of the source (`CancelPendingElements = 1 <<< 0`,
+`IgnorePendingTimeouts = 1 <<< 1`, `PanicOnModificationsAfterShutdown = 1 <<< 2`,
+`DontWaitForShutdown = 1 <<< 7`; the values are regenerated from queue.go and pinned by
+`C18_facts_flags`).  The driver decodes the flags of a `shutdown` line through this function. -/
+def Flags.ofMask (m : Nat) : Flags :=
+  { cancel := m.testBit 0, ignore := m.testBit 1, panic := m.testBit 2, dontWait := m.testBit 7 }
+
+/-- `bitmask.BitMask.HasBits(x)` for a one-bit `x = 1 <<< k`. -/
+def hasBit (m k : Nat) : Bool := m &&& (1 <<< k) == 1 <<< k
+
 /-- Return value of the API call that completed last (observed by the driver). -/
 inductive Res
   | none
